@@ -332,7 +332,14 @@ class FullFrontend(ConstrainedFrontend):
             # all constraints are satisfied
             return ()
 
-        unsat_core = self._solver_backend.unsat_core(self._get_solver())
+        # the verdict above may come from a cache, or from a check on a Z3 solver object that has since been replaced
+        # (branch + add clones it); Z3 only has a core after a check on this very solver object
+        solver = self._get_solver()
+        try:
+            self._solver_backend.satisfiable(extra_constraints=extra_constraints, solver=solver)
+        except BackendError as e:
+            raise ClaripyFrontendError("Backend error during unsat_core") from e
+        unsat_core = self._solver_backend.unsat_core(solver)
 
         return tuple(unsat_core)
 
